@@ -138,7 +138,11 @@ func handleCommandList(params internal.HandlerFuncParams) ([]byte, error) {
 		} else if strings.EqualFold("PATTERN", params.Command[3]) {
 			// Pattern filter
 			commands := params.GetAllCommands()
-			g := glob.MustCompile(params.Command[4])
+			g, err := glob.Compile(params.Command[4])
+			if err != nil {
+				// A malformed pattern such as "[a" must be refused, not panic.
+				return nil, fmt.Errorf("invalid pattern %q: %v", params.Command[4], err)
+			}
 			for _, command := range commands {
 				if command.SubCommands != nil && len(command.SubCommands) > 0 {
 					for _, subcommand := range command.SubCommands {
